@@ -14,6 +14,7 @@ Streams
                   the domain = encoded image of the fermionic action; term-for-term comparison
                   with jordan_wigner / bravyi_kitaev for the JW / BK codes.
 """
+import copy
 import itertools
 
 import numpy
@@ -116,7 +117,7 @@ def mkint(v, flavour):
 def rand_index(rng, small):
     if small:
         return rng.randint(0, 4)
-    return rng.choice([0, 1, 2, 3, 5, 7, 8, 9, 11, 16, 17, 31, 32, 40])
+    return rng.choice([0, 1, 2, 3, 5, 7, 8, 9, 11, 16, 17, 31, 32, 40, 256, 257, 300, 1000])
 
 
 def rand_string(rng, small, malformed):
@@ -990,7 +991,7 @@ def rand_fermion_op(rng, inf):
             t = rand_term(rng, 0, inf.nm, fl)
         else:
             t = rand_term(rng, *rng.choice(segs))
-        terms[t] = terms.get(t, 0) + dyadic(rng, max_num=4, max_pow=2)
+        terms[t] = terms.get(t, 0) + (rng.choice(BAND) if rng.random() < 0.2 else dyadic(rng, max_num=4, max_pow=2))
     return {t: c for t, c in terms.items() if c != 0}
 
 
@@ -1024,7 +1025,10 @@ def check_transform(ctx, stream, cases):
         # so deep products over high-degree decoders would (legitimately) lose terms.  Such cases are not judged.
         deg = max([len(t) for d in list(code.decoder) if hasattr(d, 'terms') for t in d.terms] + [1])
         maxlen = max([len(t) for t in f] + [0])
-        if maxlen * (deg + 1) + 3 > 24:
+        import math
+        small = max([0] + [-math.floor(math.log2(min(abs(x) for x in (complex(c).real, complex(c).imag) if x != 0)))
+                           for c in f.values() if c != 0])
+        if maxlen * (deg + 1) + 3 + small > 24:
             stream.count('skipped:outside-exact-regime')
             continue
         H = of.FermionOperator()
@@ -1075,6 +1079,316 @@ def check_transform(ctx, stream, cases):
                 stream.violate('transformed operator acts differently on an encoded basis state', case,
                                {'expr': e, 'v_mask': ans['v'], 'qubit_side': ans['lhs'], 'fermion_side_encoded': ans['rhs'],
                                 'int_in_decoder': False})
+
+
+# ------------------------------------------------------------------ hardening: state, types, bands, asymmetry
+
+BAND = [2.0 ** -10, 3 * 2.0 ** -13, -5 * 2.0 ** -14, 1j * 2.0 ** -11, (3 - 2j) * 2.0 ** -13, 2j, -0.5j, 1.5 - 0.25j]
+
+
+def h_canon(x):
+    """exact comparison form of polynomials, codes, operators, lists of them"""
+    import openfermion
+    if isinstance(x, openfermion.BinaryPolynomial):
+        return ('poly', canon_poly(enc_poly(x)))
+    if isinstance(x, openfermion.BinaryCode):
+        return ('code', show(canon_code(code_json(x)), 10 ** 7))
+    if isinstance(x, openfermion.QubitOperator):
+        return ('qop', canon_qop(x.terms))
+    if isinstance(x, openfermion.FermionOperator):
+        return ('fop', canon_op_json(enc_op('fermion', x.terms)))
+    if isinstance(x, numpy.ndarray):
+        if x.dtype == object:
+            return ('list', [h_canon(y) for y in x.ravel()])
+        return ('arr', x.shape, [to_gq(y) for y in x.ravel()])
+    if isinstance(x, (list, tuple)):
+        return ('list', [h_canon(y) for y in x])
+    if isinstance(x, (bool, numpy.bool_)):
+        return ('n', (int(x), 1, 0, 1))
+    if isinstance(x, (int, float, complex, numpy.number)):
+        return ('n', tuple(to_gq(x)))
+    if isinstance(x, str) or x is None:
+        return x
+    return ('repr', repr(x))
+
+
+def h_mutate(x, depth=0):
+    """in-place modification of a value a caller received"""
+    import openfermion
+    if isinstance(x, openfermion.BinaryPolynomial):
+        x += 1
+        x *= openfermion.BinaryPolynomial('w0 + w3')
+        x.shift(2)
+    elif isinstance(x, openfermion.BinaryCode):
+        for d in list(x.decoder):
+            h_mutate(d, depth + 1)
+        try:
+            x.encoder = x.encoder.tolil()
+            x.encoder[0, 0] = 5
+        except Exception:  # noqa: BLE001
+            pass
+    elif isinstance(x, (openfermion.QubitOperator, openfermion.FermionOperator)):
+        x += type(x)((), 2.5)
+        x *= 3
+    elif isinstance(x, numpy.ndarray):
+        if x.dtype == object:
+            for y in x.ravel():
+                h_mutate(y, depth + 1)
+        elif x.size and x.flags.writeable:
+            x += 1
+    elif isinstance(x, list):
+        if depth < 2:
+            for y in x:
+                h_mutate(y, depth + 1)
+        x.append(x[0] if x else 0)
+        x.reverse()
+
+
+def h_objects(x):
+    """the mutable library objects reachable from a value"""
+    import openfermion
+    if isinstance(x, openfermion.BinaryCode):
+        return [x] + [o for d in list(x.decoder) for o in h_objects(d)]
+    if isinstance(x, (openfermion.BinaryPolynomial, openfermion.SymbolicOperator)):
+        return [x]
+    if isinstance(x, numpy.ndarray):
+        return [x] + ([o for y in x.ravel() for o in h_objects(y)] if x.dtype == object else [])
+    if isinstance(x, (list, tuple)):
+        return ([x] if isinstance(x, list) else []) + [o for y in x for o in h_objects(y)]
+    return []
+
+
+def h_state(stream, name, make_args, call, extra=None):
+    """(S): arguments untouched, a second call after modifying the first result in place gives the same value"""
+    case = {'fn': name, 'check': 'state'}
+    case.update(extra or {})
+    stream.case(case)
+    stream.count('state:' + name)
+    try:
+        args = make_args()
+        snap = h_canon(list(args))
+        r1 = call(*args)
+        if h_canon(list(args)) != snap:
+            stream.violate('%s modified its arguments' % name, case, {})
+            return
+        c1 = h_canon(r1)
+        if {id(o) for o in h_objects(r1)} & {id(o) for o in h_objects(list(args))}:
+            stream.violate('%s returns an object that is (part of) one of its arguments' % name, case, {})
+            return
+        h_mutate(r1)
+        if h_canon(list(args)) != snap:
+            stream.violate('modifying the result of %s in place changed an argument' % name, case, {})
+            return
+        c2 = h_canon(call(*args))
+        if c2 != c1:
+            stream.violate('%s: a second call after modifying the first result in place gives a different value' % name,
+                           case, {'first': show(c1, 500), 'second': show(c2, 500)})
+        if h_canon(call(*make_args())) != c1:
+            stream.violate('%s is not deterministic on fresh arguments' % name, case, {})
+    except Exception as e:  # noqa: BLE001
+        stream.violate('%s raised %s in the state check' % (name, errname(e)), case, {})
+
+
+def h_types(stream, name, reference, variants):
+    try:
+        ref = h_canon(reference())
+    except Exception as e:  # noqa: BLE001
+        stream.violate('%s raised %s' % (name, errname(e)), {'fn': name, 'check': 'types'}, {})
+        return
+    for label, f in variants:
+        case = {'fn': name, 'check': 'types', 'variant': label}
+        stream.case(case)
+        stream.count('types:' + name)
+        try:
+            got = h_canon(f())
+        except Exception as e:  # noqa: BLE001
+            stream.violate('%s raised %s for argument types accepted by the library (%s)' % (name, errname(e), label), case, {})
+            continue
+        if got != ref:
+            stream.violate('%s gives a different value for argument types %s' % (name, label), case,
+                           {'reference': show(ref, 500), 'got': show(got, 500)})
+
+
+def check_hardening(ctx, stream):
+    of = ctx.of
+    from openfermion.transforms.opconversions import binary_codes as bc
+    from openfermion.transforms.opconversions.binary_code_transform import (binary_code_transform, extractor, dissolve,
+                                                                             make_parity_list)
+    from openfermion.ops.operators.binary_code import shift_decoder, double_decoding
+    BP, BCode, FO = of.BinaryPolynomial, of.BinaryCode, of.FermionOperator
+    rng = rng_for(ctx.seed, 'c09-hard')
+    I64, I32 = numpy.int64, numpy.int32
+
+    # ---------------- (S) constructors and code algebra
+    builders = [('jordan_wigner_code', lambda: bc.jordan_wigner_code(4)), ('bravyi_kitaev_code', lambda: bc.bravyi_kitaev_code(5)),
+                ('parity_code', lambda: bc.parity_code(4)), ('checksum_code', lambda: bc.checksum_code(4, 1)),
+                ('weight_one_binary_addressing_code', lambda: bc.weight_one_binary_addressing_code(2)),
+                ('weight_one_segment_code', bc.weight_one_segment_code), ('weight_two_segment_code', bc.weight_two_segment_code),
+                ('interleaved_code', lambda: bc.interleaved_code(4))]
+    for name, b in builders:
+        h_state(stream, name, lambda: (), b)
+    pairs = [(lambda: bc.jordan_wigner_code(2), lambda: bc.checksum_code(3, 0)),
+             (lambda: bc.weight_one_segment_code(), lambda: bc.parity_code(2)),
+             (lambda: bc.bravyi_kitaev_code(3), lambda: bc.weight_one_segment_code())]
+    for ma, mb in pairs:
+        h_state(stream, 'BinaryCode.__add__', lambda: (ma(), mb()), lambda a, b: a + b)
+        h_state(stream, 'BinaryCode.__add__', lambda: (mb(), ma()), lambda a, b: a + b)
+        h_state(stream, 'BinaryCode.__mul__(int)', lambda: (ma(), 3), lambda a, k: a * k)
+        h_state(stream, 'BinaryCode.__rmul__(int)', lambda: (mb(), I64(2)), lambda a, k: k * a)
+    concat = [(lambda: bc.jordan_wigner_code(3), lambda: bc.weight_one_segment_code()),
+              (lambda: bc.parity_code(4), lambda: bc.bravyi_kitaev_code(4)),
+              (lambda: bc.checksum_code(4, 0), lambda: bc.checksum_code(3, 0)),
+              (lambda: bc.interleaved_code(4), lambda: bc.jordan_wigner_code(2) + bc.parity_code(2))]
+    for ma, mb in concat:
+        h_state(stream, 'BinaryCode.__mul__(code)', lambda: (ma(), mb()), lambda a, b: a * b)
+    # in-place forms: same value as the out-of-place form, the other operand untouched, and the mutated object
+    # keeps answering consistently (transform after +=)
+    for ma, mb in pairs + concat[:2]:
+        for opname, inplace, outplace in (('+=', lambda a, b: a.__iadd__(b), lambda a, b: a + b),):
+            case = {'fn': 'BinaryCode.__iadd__', 'check': 'state'}
+            stream.case(case)
+            stream.count('state:BinaryCode.__iadd__')
+            try:
+                a, b = ma(), mb()
+                want = h_canon(outplace(ma(), mb()))
+                sb = h_canon(b)
+                r = inplace(a, b)
+                if r is not a or h_canon(a) != want or h_canon(b) != sb:
+                    stream.violate('a += b differs from a + b, rebinds, or modifies b', case, {})
+                h_mutate(b)
+                if h_canon(a) != want:
+                    stream.violate('modifying b after a += b changed a', case, {})
+            except Exception as e:  # noqa: BLE001
+                stream.violate('BinaryCode += raised %s' % errname(e), case, {})
+    for ma, mb in concat:
+        case = {'fn': 'BinaryCode.__imul__', 'check': 'state'}
+        stream.case(case)
+        stream.count('state:BinaryCode.__imul__')
+        try:
+            a, b = ma(), mb()
+            want = h_canon(ma() * mb())
+            sb = h_canon(b)
+            a *= b
+            if h_canon(a) != want or h_canon(b) != sb:
+                stream.violate('a *= b differs from a * b or modifies b', case, {})
+            a2 = ma()
+            want2 = h_canon(ma() * 2)
+            a2 *= 2
+            if h_canon(a2) != want2:
+                stream.violate('a *= 2 differs from a * 2', case, {})
+        except Exception as e:  # noqa: BLE001
+            stream.violate('BinaryCode *= raised %s' % errname(e), case, {})
+    # helpers
+    M = [[1, 0, 1], [0, 1, 1], [1, 1, 1]]
+    h_state(stream, 'linearize_decoder', lambda: (numpy.array(M),), bc.linearize_decoder)
+    h_state(stream, 'linearize_decoder', lambda: ([list(r) for r in M],), bc.linearize_decoder)
+    for c in (3, 0, I64(0), 1):
+        h_state(stream, 'shift_decoder', lambda: (bc.weight_one_segment_code().decoder, c), shift_decoder, {'shift': int(c)})
+    h_state(stream, 'BinaryPolynomial.shift(0) on a copy', lambda: (BP('w0 w1 + w2'),),
+            lambda p: [q for q in [copy.deepcopy(p)] if q.shift(0) is None][0])
+    h_state(stream, 'double_decoding', lambda: (bc.checksum_code(3, 1).decoder, bc.weight_one_segment_code().decoder[:2]),
+            double_decoding)
+    for mk in (lambda: bc.weight_two_segment_code(), lambda: bc.bravyi_kitaev_code(4), lambda: 2 * bc.weight_one_segment_code()):
+        h_state(stream, 'make_parity_list', lambda: (mk(),), make_parity_list)
+    for ps in ('w0 w1 + 1', 'w2', 'w0 w1 w3 + w1 + w2 w3', '1', 'w300 w257 + w1000'):
+        h_state(stream, 'extractor', lambda: (BP(ps),), extractor, {'poly': ps})
+        h_state(stream, 'BinaryPolynomial.enumerate_qubits', lambda: (BP(ps),), lambda p: p.enumerate_qubits())
+        h_state(stream, 'BinaryPolynomial.__add__', lambda: (BP(ps), BP('w1 + 1')), lambda p, q: p + q)
+        h_state(stream, 'BinaryPolynomial.__mul__', lambda: (BP(ps), BP('w1 + w5')), lambda p, q: p * q)
+        h_state(stream, 'BinaryPolynomial.__rmul__', lambda: (BP(ps), I64(3)), lambda p, k: k * p)
+        h_state(stream, 'BinaryPolynomial.__pow__', lambda: (BP(ps), 2), lambda p, k: p ** k)
+        h_state(stream, 'BinaryPolynomial.__radd__', lambda: (BP(ps), 1), lambda p, k: k + p)
+    h_state(stream, 'dissolve', lambda: ((0, 2, 5),), dissolve)
+    h_state(stream, 'BinaryPolynomial(list)', lambda: ([(1, 2), (0,), ('one',)],), BP)
+    h_state(stream, 'BinaryPolynomial.zero/identity', lambda: (), lambda: [BP.zero(), BP.identity()])
+    # the transform: operator and code untouched, repeatable, also after the code object was used / queried
+    codes = [lambda: bc.bravyi_kitaev_code(4), lambda: bc.checksum_code(4, 0), lambda: bc.weight_one_segment_code() * 2,
+             lambda: bc.jordan_wigner_code(3) * bc.weight_one_segment_code(), lambda: bc.parity_code(4)]
+    for mk in codes:
+        def mkargs(mk=mk):
+            return (FO('2^ 0', 1.5) + FO('1^ 1', -0.5j) + FO('2^ 1^ 2 1', 2.0) + FO('0^ 2', 2.0 ** -10), mk())
+        h_state(stream, 'binary_code_transform', mkargs, binary_code_transform)
+
+    # ---------------- (T) containers / numpy types accepted by the library
+    enc = [[1, 0, 1], [0, 1, 1]]
+    dec = ['w0 w1 + w0', 'w0 w1 + w1', 'w0 w1']
+    h_types(stream, 'BinaryCode', lambda: BCode(enc, dec),
+            [(lab, (lambda E=E: BCode(E, dec))) for lab, E in
+             [('int64 array', numpy.array(enc)), ('int32 array', numpy.array(enc, dtype=I32)), ('uint8 array', numpy.array(enc, dtype=numpy.uint8)),
+              ('float array', numpy.array(enc, dtype=float)), ('bool array', numpy.array(enc, dtype=bool)),
+              ('fortran array', numpy.asfortranarray(numpy.array(enc)))]] +
+            [(lab, (lambda D=D: BCode(enc, D()))) for lab, D in
+             [('tuple lists', lambda: [[(0, 1), (0,)], [(0, 1), (1,)], [(0, 1)]]),
+              ('polynomials', lambda: [BP(x) for x in dec]),
+              ('object array', lambda: numpy.array([BP(x) for x in dec], dtype=object)),
+              ('mixed', lambda: [dec[0], BP(dec[1]), [(1, 0)]]),
+              ('numpy int tuples', lambda: [[(I64(0), I32(1)), (I64(0),)], [(I32(1), I64(0)), (I32(1),)], [(I64(0), I64(1))]])]])
+    for ps, bits in [('w0 w2 + w1 + 1', [1, 0, 1]), ('w1 w2 w3 + w0', [0, 1, 1, 1, 0]), ('1', []), ('w0 + w0 w1', [1, 1])]:
+        p = BP(ps)
+        h_types(stream, 'BinaryPolynomial.evaluate', lambda: int(p.evaluate(list(bits))),
+                [('tuple', lambda: int(p.evaluate(tuple(bits)))), ('int64 array', lambda: int(p.evaluate(numpy.array(bits, dtype=I64)))),
+                 ('int8 array', lambda: int(p.evaluate(numpy.array(bits, dtype=numpy.int8)))),
+                 ('bool list', lambda: int(p.evaluate([bool(b) for b in bits]))),
+                 ('bool array', lambda: int(p.evaluate(numpy.array(bits, dtype=bool)))),
+                 ('str', lambda: int(p.evaluate(''.join(map(str, bits))))),
+                 ('float list', lambda: int(p.evaluate([float(b) for b in bits]))),
+                 ('numpy int list', lambda: int(p.evaluate([I64(b) if i % 2 else numpy.int8(b) for i, b in enumerate(bits)])))])
+    for n in (3, 6):
+        h_types(stream, 'jordan_wigner_code', lambda: bc.jordan_wigner_code(n), [('int64', lambda: bc.jordan_wigner_code(I64(n))), ('int32', lambda: bc.jordan_wigner_code(I32(n))), ('uint8', lambda: bc.jordan_wigner_code(numpy.uint8(n)))])
+        h_types(stream, 'bravyi_kitaev_code', lambda: bc.bravyi_kitaev_code(n), [('int64', lambda: bc.bravyi_kitaev_code(I64(n))), ('int32', lambda: bc.bravyi_kitaev_code(I32(n)))])
+        h_types(stream, 'parity_code', lambda: bc.parity_code(n), [('int64', lambda: bc.parity_code(I64(n))), ('int32', lambda: bc.parity_code(I32(n)))])
+        h_types(stream, 'checksum_code', lambda: bc.checksum_code(n, 1), [('int64, numpy.bool_', lambda: bc.checksum_code(I64(n), numpy.bool_(True))), ('int32, True', lambda: bc.checksum_code(I32(n), True)), ('int, int64 1', lambda: bc.checksum_code(n, I64(1)))])
+        h_types(stream, 'checksum_code', lambda: bc.checksum_code(n, 0), [('int64, numpy.bool_', lambda: bc.checksum_code(I64(n), numpy.bool_(False))), ('int, False', lambda: bc.checksum_code(n, False))])
+    h_types(stream, 'interleaved_code', lambda: bc.interleaved_code(6), [('int64', lambda: bc.interleaved_code(I64(6)))])
+    h_types(stream, 'weight_one_binary_addressing_code', lambda: bc.weight_one_binary_addressing_code(3),
+            [('int64', lambda: bc.weight_one_binary_addressing_code(I64(3)))])
+    h_types(stream, 'shift_decoder', lambda: shift_decoder(bc.bravyi_kitaev_code(3).decoder, 4),
+            [('int64', lambda: shift_decoder(bc.bravyi_kitaev_code(3).decoder, I64(4))),
+             ('object array decoder', lambda: shift_decoder(numpy.array(bc.bravyi_kitaev_code(3).decoder, dtype=object), I32(4)))])
+    h_types(stream, 'linearize_decoder', lambda: bc.linearize_decoder(M),
+            [('int64 array', lambda: bc.linearize_decoder(numpy.array(M))), ('float array', lambda: bc.linearize_decoder(numpy.array(M, dtype=float))),
+             ('bool array', lambda: bc.linearize_decoder(numpy.array(M, dtype=bool))), ('fortran', lambda: bc.linearize_decoder(numpy.asfortranarray(numpy.array(M)))),
+             ('tuples', lambda: bc.linearize_decoder(tuple(map(tuple, M))))])
+    h_types(stream, 'dissolve', lambda: dissolve((0, 2, 3)), [('numpy ints', lambda: dissolve((I64(0), I32(2), I64(3)))), ('list', lambda: dissolve([0, 2, 3]))])
+    h_types(stream, 'BinaryPolynomial(list)', lambda: BP([(300, 257), (1000,), (2, 'one')]),
+            [('numpy ints', lambda: BP([(I64(300), I32(257)), (I64(1000),), (I32(2), 'one')])),
+             ('lists', lambda: BP([[300, 257], [1000], [2, 'one']])), ('tuple of tuples', lambda: BP(((257, 300), (1000,), ('one', 2))))])
+    # coefficients: numpy.float64 / complex128 through the constructor, numpy scalars placed into .terms, numpy mode indices
+    ncase = budget(ctx.tier, 6, 30)
+    for _ in range(ncase):
+        e = rng.choice([['bk', 4], ['jw', 3], ['parity', 4], ['checksum', 4, False], ['w1seg'], ['interleaved', 4]])
+        inf = info(of, e)
+        f = rand_fermion_op(rng, inf)
+        f = {t: rng.choice(BAND) if rng.random() < 0.5 else c for t, c in f.items()}
+        if not f:
+            continue
+        code = build_impl(of, e)
+        def plain():
+            H = FO()
+            for t, c in f.items():
+                H += FO(t, c)
+            return binary_code_transform(H, code)
+        def np_ctor():
+            H = FO()
+            for t, c in f.items():
+                H += FO(t, numpy.complex128(c) if isinstance(c, complex) else numpy.float64(c))
+            return binary_code_transform(H, code)
+        def np_terms(kinds):
+            H = FO()
+            for k, (t, c) in enumerate(f.items()):
+                H.terms[tuple((I64(i) if (k + i) % 2 else I32(i), I64(a)) for i, a in t)] = kinds[k % len(kinds)](c)
+            return binary_code_transform(H, code)
+        exact32 = all(complex(numpy.complex64(c)) == complex(c) for c in f.values())
+        real = all(not isinstance(c, complex) for c in f.values())
+        variants = [('numpy.float64 / complex128 coefficients', np_ctor),
+                    ('complex128 scalars and numpy indices in .terms', lambda: np_terms([numpy.complex128]))]
+        if exact32:
+            variants.append(('complex64 scalars in .terms', lambda: np_terms([numpy.complex64])))
+        if real:
+            variants.append(('float64 / float32 scalars in .terms', lambda: np_terms([numpy.float64, numpy.float32])))
+        if all(not isinstance(c, complex) and float(c).is_integer() for c in f.values()):
+            variants.append(('int64 scalars in .terms', lambda: np_terms([numpy.int64])))
+        h_types(stream, 'binary_code_transform', plain, variants)
 
 
 # ------------------------------------------------------------------ known findings
@@ -1246,4 +1560,14 @@ def run(ctx):
     check_transform(ctx, st, cases)
     check_large_transform(ctx, st)
     streams.append(st)
+    sh = Stream('hardening', '(S) every constructor, code operation (+, int *, concatenation, +=, *=), helper '
+                '(linearize_decoder, shift_decoder, double_decoding, make_parity_list, extractor, dissolve) and '
+                'binary_code_transform called twice around an in-place modification of the first result, arguments snapshotted; '
+                '(T) encoder as int64 / int32 / uint8 / float / bool / Fortran arrays, decoder as strings / tuples / polynomials / '
+                'object arrays, evaluate() on tuples / arrays / bool / str / float, numpy integer sizes and shifts, numpy '
+                'float64 / complex128 / complex64 / float32 / int64 coefficients and numpy mode indices placed into .terms (only '
+                'types the unmodified library accepts); (B, A) coefficients 1e-4..1e-3 next to O(1), purely imaginary and complex '
+                'coefficients, variable indices >= 257')
+    check_hardening(ctx, sh)
+    streams.append(sh)
     return streams
